@@ -64,11 +64,17 @@ def close(a, b, rtol=1e-12):
     return bool(np.all(ok))
 
 
+_numeric_warning = [False]   # set when the last outcome() saw NumPy report an invalid / overflowing / dividing-by-zero operation
+
+
 def outcome(fn):
-    with warnings.catch_warnings():
-        warnings.simplefilter('ignore')
+    with warnings.catch_warnings(record=True) as seen:
+        warnings.simplefilter('always')
         try:
-            return ('ret', fn())
+            try:
+                return ('ret', fn())
+            finally:
+                _numeric_warning[0] = any(issubclass(w.category, RuntimeWarning) for w in seen)
         except (ValueError, IndexError, KeyError, SolutionError, NonConvergenceError, fsic.exceptions.FortranEngineError) as e:
             return ('exc', type(e).__name__)
         except Exception as e:
@@ -135,13 +141,16 @@ def process(rec, payload, workdir, idx):
     # -- evaluate ------------------------------------------------------------------------------------
     for p in range(lags, L - leads):
         for t in (p, p - L):
-            table = data_table(all_names, L, rng.randrange(3), seed + p)
+            table = data_table(all_names, L, rng.randrange(4), seed + p)
             pm, fm = Py(span), F(span)
             fill(pm, all_names, table)
             fill(fm, all_names, table)
             o1 = outcome(lambda: pm._evaluate(t))
+            nonfinite = _numeric_warning[0]
             o2 = outcome(lambda: fm._evaluate(t))
             n += 1
+            if nonfinite or not all(np.all(np.isfinite(v)) for m_ in (pm, fm) for v in state(m_).values() if v.dtype.kind == 'f'):
+                continue  # the property is about data for which values (intermediate ones included) stay finite
             if o1[0] != o2[0] or (o1[0] == 'exc' and o1[1] != o2[1]):
                 if o1 == ('exc', 'ZeroDivisionError'):
                     continue
@@ -169,14 +178,19 @@ def process(rec, payload, workdir, idx):
     for opts in option_sets:
         for p in range(L):
             t = p if rng.random() < 0.6 else p - L
-            table = data_table(all_names, L, 2, seed + rng.randrange(1000))
+            table = data_table(all_names, L, rng.choice([2, 2, 3]), seed + rng.randrange(1000))
             pm, fm = Py(span), F(span)
             fill(pm, all_names, table)
             fill(fm, all_names, table)
             o1 = outcome(lambda: pm.solve_t(t, **opts))
+            # the solver swallows NumPy's warnings unless errors='raise': a twin run under that policy tells whether the data
+            # makes any value - intermediate ones included - non-finite along the way
+            tw = Py(span)
+            fill(tw, all_names, table)
+            nonfinite = outcome(lambda: tw.solve_t(t, **dict(opts, errors='raise', catch_first_error=True))) == ('exc', 'SolutionError')
             o2 = outcome(lambda: fm.solve_t(t, **opts))
             n += 1
-            finite = all(np.all(np.isfinite(v)) for m_ in (pm, fm) for k_, v in state(m_).items() if v.dtype.kind == 'f')
+            finite = not nonfinite and all(np.all(np.isfinite(v)) for m_ in (pm, fm) for k_, v in state(m_).items() if v.dtype.kind == 'f')
             if not finite or o1 == ('exc', 'ZeroDivisionError') or o1 == o2 == ('exc', 'SolutionError'):
                 continue  # the property is about data for which values stay finite
             if o1 != o2:
@@ -204,9 +218,12 @@ def process(rec, payload, workdir, idx):
             if se[1] is not None:
                 kw['end'] = se[1]
             o1 = outcome(lambda: pm.solve(**kw))
+            tw = Py(span)
+            fill(tw, all_names, table)
+            nonfinite = outcome(lambda: tw.solve(**dict(kw, errors='raise', catch_first_error=True))) == ('exc', 'SolutionError')
             o2 = outcome(lambda: fm.solve(**kw))
             n += 1
-            finite = all(np.all(np.isfinite(v)) for m_ in (pm, fm) for k_, v in state(m_).items() if v.dtype.kind == 'f')
+            finite = not nonfinite and all(np.all(np.isfinite(v)) for m_ in (pm, fm) for k_, v in state(m_).items() if v.dtype.kind == 'f')
             if not finite or o1 == ('exc', 'ZeroDivisionError') or o1 == o2 == ('exc', 'SolutionError'):
                 continue
             if (o1[0], o1[1] if o1[0] == 'exc' else [list(x) for x in o1[1]]) != (o2[0], o2[1] if o2[0] == 'exc' else [list(x) for x in o2[1]]):
